@@ -1,0 +1,19 @@
+//go:build verif
+
+// Contracts for package requestmanager (properties C07, C09, C04, C23, C24, C25). Comment-only:
+// read by /verif/bin/gsv, never compiled into the package.
+
+package requestmanager
+
+//@ -- C07: the link budget handed to the traverser is the smaller non-zero of the global and the
+//@ -- per-request limit (none when both are zero).
+//@ func RequestManager.requestTask
+//@   lenient
+//@   safety off
+//@   modifies inProgressRequestStatus.traverserCancel, inProgressRequestStatus.traverser, inProgressRequestStatus.reconciledLoader,
+//@            inProgressRequestStatus.state, alloc, Budget.NodeBudget, Budget.LinkBudget
+//@   watch globalMax: rm.maxLinksPerRequest
+//@   callsite TraversalBuilder.Start: assert
+//@        let g := rm.maxLinksPerRequest :: let r := ipr.maxLinks ::
+//@        let eff := ite(g == 0, r, ite(r != 0 && r < g, r, g)) ::
+//@        (eff == 0 <==> self.Budget == nil) && (eff != 0 ==> self.Budget.LinkBudget == eff)
